@@ -124,6 +124,16 @@ def run(program, res, tier):
     d = depsmod.Deps(g, pe.params())
     gb = [(n, c) for n in g.stmt_nodes(("stmt",)) for c in ast.walk(n.stmt) if isinstance(c, ast.Call) and isinstance(c.func, ast.Attribute)
           and c.func.attr == "groupby" and c.args and depsmod.has_root(d.roots_at(n, c.args[0]), "op.partition_by")]
+    if not gb:
+        # the grouping may sit in a helper of the model that is handed op.partition_by
+        pbc = program.cls("pandas_base", "PandasModelBase")
+        for n in g.stmt_nodes(("stmt",)):
+            for c in ast.walk(n.stmt):
+                if isinstance(c, ast.Call) and isinstance(c.func, ast.Attribute) and isinstance(c.func.value, ast.Name) and c.func.value.id == "self" \
+                        and any(depsmod.has_root(d.roots_at(n, a), "op.partition_by") for a in list(c.args) + [k.value for k in c.keywords]):
+                    h = pbc.find_method(c.func.attr)
+                    if h is not None and any(isinstance(x, ast.Call) and isinstance(x.func, ast.Attribute) and x.func.attr == "groupby" for x in ast.walk(h.node)):
+                        gb.append((n, c))
     if gb:
         res.ok("C27-S1", "Pandas: the windowed computation groups by op.partition_by")
     else:
@@ -145,7 +155,39 @@ def run(program, res, tier):
     (ns, cs, kws) = main_sort
     by_roots = d.roots_at(ns, kws["by"])
     asc = kws.get("ascending")
-    miss = depsmod.missing_roots(by_roots, ["op.partition_by", "op.order_by"])
+    # one stable pass per key (`for key, direction in zip(<keys>, <directions>)`): the two sequences have to be walked in step — the same base sequence,
+    # both reversed or neither — or each key is sorted with another key's direction
+    multipass = None
+    for b_, _l in g.lexical_guards(ns):
+        if isinstance(b_.stmt, ast.For) and isinstance(b_.stmt.iter, ast.Call) and dotted_name(b_.stmt.iter.func) == "zip" and len(b_.stmt.iter.args) == 2:
+            multipass = b_.stmt
+    if multipass is not None:
+        def strip(e):
+            rev = 0
+            while isinstance(e, ast.Call) and dotted_name(e.func) in ("reversed", "list", "tuple") and e.args:
+                rev += 1 if dotted_name(e.func) == "reversed" else 0
+                e = e.args[0]
+            if isinstance(e, ast.Subscript) and unparse(e.slice) == "::-1":
+                rev, e = rev + 1, e.value
+            return rev % 2, e
+        (ra, ea), (rb, eb) = strip(multipass.iter.args[0]), strip(multipass.iter.args[1])
+
+        def base_seq(e):
+            # a list built by a comprehension over a sequence is aligned with that sequence
+            if isinstance(e, ast.Name):
+                defs_ = [a_.value for a_ in ast.walk(pe.node) if isinstance(a_, ast.Assign) and len(a_.targets) == 1 and isinstance(a_.targets[0], ast.Name) and a_.targets[0].id == e.id]
+                if len(defs_) == 1 and isinstance(defs_[0], ast.ListComp):
+                    r_, inner = strip(defs_[0].generators[0].iter)
+                    return r_, unparse(inner)
+            return 0, unparse(e)
+        (xa, sa_), (xb, sb_) = base_seq(ea), base_seq(eb)
+        if sa_ == sb_ and (ra + xa) % 2 == (rb + xb) % 2:
+            res.ok("C27-S1", f"Pandas: the per-key sort passes walk keys and directions in step (`{unparse(multipass.iter)}`)")
+        else:
+            res.fail_at("C27-S1", pe, "pandas-sort-direction-misaligned",
+                        f"`for … in {unparse(multipass.iter)}` pairs the keys and their directions out of step (one side reversed, or built over another sequence): with "
+                        f"order_by=[o1, o2], reverse=[o2] the column o1 is sorted descending and o2 ascending — cumsum, row_number, shift follow the wrong order on Pandas", multipass)
+    miss = depsmod.missing_roots(by_roots, ["op.order_by"] if multipass is not None else ["op.partition_by", "op.order_by"])
     if miss:
         res.fail_at("C27-S1", pe, f"pandas-sort-keys:{','.join(miss)}", f"the window sort keys `{unparse(kws['by'])}` do not derive from {miss}", cs)
     else:
